@@ -149,6 +149,7 @@ def families() -> dict[str, Family]:
             L("use_index", "use_index", lambda r: r.use_index("ui")),
             L("for_update", "for_update", lambda r: r.for_update(nowait=True)),
             L("for_update#of", "for_update", lambda r: r.for_update(of=("t2",))),
+            L("for_update#of-many", "for_update", lambda r: r.for_update(of=unstable_names())),
             L("with_", "with_", lambda r: r.with_(sub(), "cte1")),
             L("with_totals", "with_totals", lambda r: r.with_totals()),
             L("rollup#a", "rollup", lambda r: r.rollup(t1.d)),
@@ -335,6 +336,28 @@ def _inner(f):
         except ValueError:
             pass
     return None
+
+
+_UNSTABLE = []
+
+
+def unstable_names():
+    """table names whose SET iteration order changes when the set is rebuilt element by element (what deepcopy / pickle do): found by search under
+    this process's string hashing, so a renderer that walks the set instead of sorting it shows in a duplicate"""
+    if not _UNSTABLE:
+        import itertools
+        pool = ["orders", "items", "users", "t1", "t2", "t3", "zeta", "alpha", "m", "customers", "lines", "stock", "q", "k", "audit", "log"]
+        found = None
+        for n in (2, 3, 4, 5):
+            for c in itertools.combinations(pool, n):
+                s1 = set(c)
+                if list(s1) != list(set(list(s1))) or list(s1) != list(set(reversed(list(s1)))):
+                    found = c
+                    break
+            if found:
+                break
+        _UNSTABLE.extend(found or ("t2", "t1", "zeta"))
+    return tuple(_UNSTABLE)
 
 
 def _auto_labels(fams) -> None:
